@@ -370,6 +370,23 @@ func (w *World) submitHTTP(in *Instance, it *Item, plan []int) *Submission {
 	h := in.handler
 	inc := in.inc
 	go func() {
+		defer func() {
+			// net/http would turn a handler panic into an aborted connection
+			if r := recover(); r != nil {
+				if in.inc != inc || in.dead {
+					select {}
+				}
+				prop := "C17"
+				if w.prof.Prop == "C02" {
+					prop = "C02"
+				}
+				w.smu.Lock()
+				w.orc.v(prop, "waiter-panic", "HTTP submission %d panicked instead of getting an outcome: %s", s.ID, clip(fmt.Sprint(r)))
+				w.smu.Unlock()
+				s.Returned++
+				s.Done, s.DoneStep, s.Code, s.Err = true, w.sim.Step, 500, fmt.Errorf("panic: %v", r)
+			}
+		}()
 		body, _ := json.Marshal(struct {
 			Chain [][]byte `json:"chain"`
 		}{it.Chain})
